@@ -30,6 +30,11 @@ EDIT_CLASSES = [
     ("field_case", True, "ConfigHashData", "default_field_case"),
     ("output_mode", True, "ConfigHashData", "validation_library"),
     ("visualize_deps", True, "ConfigHashData", "visualize_deps"),
+    # order-only edits: the same items in another source order (the generated order follows the source order)
+    ("cmd_order", False, "CommandHashData", "name"),
+    ("param_order", False, "ParameterHashData", "name"),
+    ("field_order", False, "FieldHashData", "name"),
+    ("variant_order", False, "FieldHashData", "name"),
 ]
 ASPECTS = [e[0] for e in EDIT_CLASSES]
 FILE_NAMES = ["types.ts", "commands.ts", "events.ts", "index.ts", "dependency-graph.txt", "dependency-graph.dot"]
@@ -64,21 +69,26 @@ def render_sources(st):
     chan = alt(g("channel"), ["String", "Status", "i32"])
     evname = alt(g("event_name"), ["user-updated", "user-changed", "profile-updated"])
     evpay = alt(g("event_payload"), ["user: User", "user: Status", "user: UserId"])
+    tail_fields = "    pub tag: UserId,\n    pub status: Status,\n" if g("field_order") % 2 == 0 else "    pub status: Status,\n    pub tag: UserId,\n"
+    variants2 = "    Active,\n    Inactive,\n" if g("variant_order") % 2 == 0 else "    Inactive,\n    Active,\n"
     src = (
         "use serde::{Deserialize, Serialize};\n\n"
-        "#[derive(Debug, Clone, Serialize, Deserialize)]\n%spub struct User {\n%s%s    pub user_name: %s,\n%s    pub hidden_note: i32,\n%s    pub tag: UserId,\n    pub status: Status,\n}\n\n"
-        % (rename_all, field_attr, validator, fty, skip, extra)
-        + "#[derive(Debug, Clone, Serialize, Deserialize)]\npub enum Status {\n%s    Active,\n    Inactive,\n%s}\n\n" % (vren, variant)
+        "#[derive(Debug, Clone, Serialize, Deserialize)]\n%spub struct User {\n%s%s    pub user_name: %s,\n%s    pub hidden_note: i32,\n%s%s}\n\n"
+        % (rename_all, field_attr, validator, fty, skip, extra, tail_fields)
+        + "#[derive(Debug, Clone, Serialize, Deserialize)]\npub enum Status {\n%s%s%s}\n\n" % (vren, variants2, variant)
     )
-    cmds = (
-        "use tauri::{AppHandle, Emitter};\nuse tauri::ipc::Channel;\n\n"
-        "#[tauri::command]\n%spub fn %s(%s%s: %s, on_event: Channel<%s>) -> Result<%s, String> {\n    todo!()\n}\n\n"
-        % (cra, cmd, pattr, pname, pty, chan, ret)
+    p1 = "%s%s: %s" % (pattr, pname, pty)
+    p2 = "verbose_flag: bool"
+    plist = "%s, %s" % ((p1, p2) if g("param_order") % 2 == 0 else (p2, p1))
+    main_cmd = (
+        "#[tauri::command]\n%spub fn %s(%s, on_event: Channel<%s>) -> Result<%s, String> {\n    todo!()\n}\n\n"
+        % (cra, cmd, plist, chan, ret)
     )
     if not st.get("_noevents", False):
-        cmds += "#[tauri::command]\npub fn notify(app: AppHandle, %s) -> Result<(), String> {\n    app.emit(\"%s\", &user).ok();\n    Ok(())\n}\n" % (evpay, evname)
+        second = "#[tauri::command]\npub fn notify(app: AppHandle, %s) -> Result<(), String> {\n    app.emit(\"%s\", &user).ok();\n    Ok(())\n}\n\n" % (evpay, evname)
     else:
-        cmds += "#[tauri::command]\npub fn notify(app: AppHandle) -> Result<(), String> {\n    Ok(())\n}\n"
+        second = "#[tauri::command]\npub fn notify(app: AppHandle) -> Result<(), String> {\n    Ok(())\n}\n\n"
+    cmds = "use tauri::{AppHandle, Emitter};\nuse tauri::ipc::Channel;\n\n" + (main_cmd + second if g("cmd_order") % 2 == 0 else second + main_cmd)
     if st.get("_nocommands", False):
         cmds = "pub fn helper() {}\n"
     return {"src/models.rs": src, "src/commands.rs": cmds, "src/lib.rs": "mod models;\nmod commands;\n"}
